@@ -273,6 +273,9 @@ func finish(c *Ctx, verifDir string, start time.Time, mutants []mutantEvidence, 
 		for _, o := range out.violations {
 			fmt.Printf("VIOLATION property=%s replay=- key=%q\n", c.Property, o.Key)
 			fmt.Printf("  rule=%s at %s: %s\n", o.Rule, o.Pos, o.Msg)
+			for _, w := range o.Witness {
+				fmt.Printf("    %s\n", w)
+			}
 		}
 	}
 	for _, o := range out.known {
